@@ -356,6 +356,10 @@ def apply_op(H, op):
                 raise AssertionError(name)
         except Exception as e:  # noqa: BLE001 - every exception class is an observation
             exc = G.classify_exception(e)
+            if PRESENT is not None and exc == "ValueError" and "truth value of an array" in str(e):
+                # numpy's way of refusing to order a numpy integer against a tuple (sorted() of mixed ids):
+                # the same refusal as Python's TypeError for the plain int the model stands for
+                exc = "TypeError"
     nwarn = sum(1 for w in wl if not issubclass(w.category, DeprecationWarning))
     return extra, exc, nwarn
 
